@@ -171,8 +171,8 @@ CHECKS = {
               "ERROR, DONE is terminal. Non-trivial: an illegal request, a failed transition or a concurrent batch."),
         assumptions=["goroutine scheduling inside the core is not owned; the harness owns the order of external stimuli (held probes, request issue order)",
                      "the gRPC status and the state field of a reply in a concurrent batch are not part of the oracle (read after the lock is released)"],
-        quick=[R("^TestFixed$", 1, 1, 400), R("^TestHistories$", 12, 10, 600, shrinktime="60s")],
-        thorough=[R("^TestFixed$", 1, 1, 400), R("^TestHistories$", 250, 15, 3000, shrinktime="120s")],
+        quick=[R("^TestFixed$", 1, 1, 400), R("^TestHistories$", 12, 10, 600, shrinktime="60s"), R("^TestSavedDoneToError$", 1, 3, 400)],
+        thorough=[R("^TestFixed$", 1, 1, 400), R("^TestHistories$", 250, 15, 3000, shrinktime="120s"), R("^TestSavedDoneToError$", 1, 4, 3000)],
         floors={"concurrent-batch": ("TestHistories", 0.3), "illegal-request": ("TestHistories", 0.3)},
     ),
     "C03": dict(
